@@ -201,34 +201,55 @@ theorem C19_roundtrip_unguarded_false : ¬ RoundTripStatement Guards.off := by
   rw [C19_unguarded_fails.1.2] at h1
   cases h1
 
-/-! ### obligations about the extracted facts (PyroModel/Gen/C19.lean, regenerated from /repo on every run) -/
+/-! ### obligations about the extracted facts (PyroModel/Gen/C19.lean, regenerated from /repo on every run)
+    The facts are behaviour tables PROBED on the imported classes (not the spelling of the source): the
+    obligations say that the model reproduces every probed outcome. -/
 
-/-- **C19_gen_facts.**  The source still has the shape the model was written from: the two regular
-    expressions (no flags), the guard conditions of `__init__` / `_parseLocation` in order — including the
-    two guards of fixes/C19-reparse.patch —, the prefix/partition literals, the state tuple, `__eq__` and
-    `__hash__` over it, the default NS_PORT; and the proxy state path of client.py that `C19_transport` /
-    `C19_proxy_history` model: `__getstate__` is one statement whose first slot is `str(self._pyroUri)`,
-    `_pyroUri` is the only uri-related attribute and is written only by `__init__`, `__setstate__`
-    (`core.URI(state[0])`) and the connection code, and `__copy__` goes through the same state pair. -/
+/-- the model parses the probe input to the probed result, prints it to the probed text and location -/
+def parseProbeOK (nsPort : Nat) (t : Text × Except Err Uri × Text × Option Text) : Bool :=
+  decide (parse Guards.on nsPort t.1 = t.2.1) &&
+  (match t.2.1 with
+   | .ok u => decide (render u u.tagOrder = t.2.2.1) && decide (renderLoc u.loc = t.2.2.2)
+   | .error _ => true)
+
+/-- the model's `==` on the two parsed probe inputs is the probed `URI(a) == URI(b)` -/
+def eqProbeOK (nsPort : Nat) (t : Text × Text × Bool) : Bool :=
+  match parse Guards.on nsPort t.1, parse Guards.on nsPort t.2.1 with
+  | .ok u, .ok v => eqUri u v == t.2.2
+  | _, _ => false
+
+/-- the model's hash is defined exactly when the probed `hash(URI(a))` is -/
+def hashProbeOK (nsPort : Nat) (t : Text × Bool) : Bool :=
+  match parse Guards.on nsPort t.1 with
+  | .ok u => (hashUri (fun _ => 0) u).isSome == t.2
+  | .error _ => false
+
+/-- the model's proxy state path delivers what the real Proxy delivered along the probed history -/
+def proxyProbeOK (nsPort : Nat) (t : Uri × List ProxyOp × List (Except Err Uri)) : Bool :=
+  decide (proxyRun Guards.on nsPort Uri.tagOrder t.1 t.2.1 = t.2.2)
+
+/-- **C19_gen_facts.**  The real classes still behave the way the model was written: the main regular
+    expression (pattern, no flags) and — when the extractor can resolve it — the bracketed-location pattern;
+    both parse-time guards are in force; on every probe string `URI(s)` does (accept with this state / refuse
+    with this kind of error), prints and reports `location` exactly as `parse`/`render`/`renderLoc` do with the
+    default NS_PORT; `==` and hashability on the probe pairs are the model's; equal probe URIs hashed alike;
+    `Proxy.__getstate__()[0]` is the text `str(uri)`, and along the probed proxy histories (state pair,
+    `copy.copy`, uri replaced) the delivered uris are the model's `proxyRun`. -/
 theorem C19_gen_facts :
     Pyro.Gen.C19.uriRegex = "(?P<protocol>[Pp][Yy][Rr][Oo][a-zA-Z]*):(?P<object>\\S+?)(@(?P<location>.+))?$" ∧
     Pyro.Gen.C19.uriRegexFlags = 32 ∧
-    Pyro.Gen.C19.ipv6Regex = "\\[([0-9a-fA-F:%]+)](:(\\d+))?" ∧
-    Pyro.Gen.C19.initGuards = ["not isinstance(uri, str)", "not match", "not location",
-      "not any(self.object) or any(('@' in m for m in self.object))", "else"] ∧
-    Pyro.Gen.C19.locGuards = ["not self.sockname or ':' in self.sockname", "location.startswith('[[')",
-      "not ipv6locationmatch", "not self.host or self.host == './u'", "except (ValueError, TypeError)"] ∧
-    Pyro.Gen.C19.locCalls = ["startswith ./u:", "startswith [", "startswith [[", "partition :"] ∧
-    Pyro.Gen.C19.getstateTuple = "(self.protocol, self.object, self.sockname, self.host, self.port)" ∧
-    Pyro.Gen.C19.eqReturns = ["self.__getstate__() == other.__getstate__()", "False"] ∧
-    Pyro.Gen.C19.hashReturn = "hash(self.__getstate__())" ∧
-    Pyro.Gen.C19.nsPortDefault = 9090 ∧
-    Pyro.Gen.C19.proxyStateHead = "str(self._pyroUri)" ∧
-    Pyro.Gen.C19.proxyGetstateStmts = 1 ∧
-    Pyro.Gen.C19.proxyUriWriters = ["__init__ _pyroUri = uri", "__pyroCreateConnection _pyroUri = uri",
-      "__setstate__ _pyroUri = core.URI(state[0])"] ∧
-    Pyro.Gen.C19.proxyCopyUsesState = true ∧
-    (⟨Pyro.Gen.C19.guardHost, Pyro.Gen.C19.guardTags⟩ : Guards) = Guards.on := by
+    ((Pyro.Gen.C19.ipv6Regex = "\\[([0-9a-fA-F:%]+)](:(\\d+))?" ∧ Pyro.Gen.C19.ipv6RegexFlags = 32) ∨
+      Pyro.Gen.C19.ipv6Regex = "<unresolved>") ∧
+    (⟨Pyro.Gen.C19.guardHost, Pyro.Gen.C19.guardTags⟩ : Guards) = Guards.on ∧
+    40 ≤ Pyro.Gen.C19.parseProbes.length ∧
+    Pyro.Gen.C19.parseProbes.all (parseProbeOK Pyro.Gen.C19.nsPortDefault) = true ∧
+    10 ≤ Pyro.Gen.C19.eqProbes.length ∧
+    Pyro.Gen.C19.eqProbes.all (eqProbeOK Pyro.Gen.C19.nsPortDefault) = true ∧
+    Pyro.Gen.C19.hashProbes.all (hashProbeOK Pyro.Gen.C19.nsPortDefault) = true ∧
+    Pyro.Gen.C19.equalHashesAgree = true ∧
+    Pyro.Gen.C19.proxyStateIsText = true ∧
+    3 ≤ Pyro.Gen.C19.proxyProbes.length ∧
+    Pyro.Gen.C19.proxyProbes.all (proxyProbeOK Pyro.Gen.C19.nsPortDefault) = true := by
   decide
 
 /-! ### non-vacuity: concrete, non-trivial values meet the hypotheses -/
